@@ -202,15 +202,17 @@ fn parts_of<T: Elem>(v: &Value) -> Option<(Vec<T>, u64)> {
 /// buffer lengths for the oversized-buffer fault: MAX-1 (still valid), MAX, MAX+1, MAX+2 and lengths whose low bits
 /// (length mod (MAX+1)) exceed the stored index, so that a narrowing cast of the length would let them through
 pub fn oversize_len(d: u64, idx: u64) -> u64 {
+	// only used where PeriodType::MAX <= 255; saturating so that the wide builds compile
+	let m1 = PMAX.saturating_add(1);
 	match d {
 		0 => PMAX - 1,
 		1 => PMAX,
-		2 => PMAX + 1,
-		3 => PMAX + 2,
-		4 => PMAX + 1 + idx + 1,
-		5 => 2 * (PMAX + 1) + idx + 1,
-		6 => 3 * (PMAX + 1) + idx + 7,
-		_ => PMAX + 1 + (PMAX - 1),
+		2 => m1,
+		3 => PMAX.saturating_add(2),
+		4 => m1.saturating_add(idx + 1),
+		5 => m1.saturating_mul(2).saturating_add(idx + 1),
+		6 => m1.saturating_mul(3).saturating_add(idx + 7),
+		_ => m1.saturating_add(PMAX - 1),
 	}
 }
 
